@@ -2304,6 +2304,13 @@ def tie_C19(ctx):
         worlds.append([[f"timer 10 {rd_hex(probe)}", "jit 0 10", "testtimer 0"],
                        [f"timer 11 {rd_hex(rs)}", "jit 1 11", "u64 1", "calls 11", "u32 1", "calls 11"]])
         ctx.dist["world:test_timer-then-fresh-jitter"] += 1
+    # … and the std constructor on the real clock (it caches its round count process-wide) followed by a scripted-timer
+    # instance that keeps the default rounds
+    for w in range(ctx.scale(3, 20)):
+        rs = good_readings(rng, 700)
+        worlds.append([["jitnew", "jitnew"],
+                       [f"timer 11 {rd_hex(rs)}", "jit 1 11", "u64 1", "calls 11", "u32 1", "calls 11"]])
+        ctx.dist["world:JitterRng::new()-then-fresh-jitter"] += 1
     solo_cases, inter_cases, maps = [], [], []
     for gens in worlds:
         for seq in gens:
@@ -2311,7 +2318,7 @@ def tie_C19(ctx):
         idx = [0] * len(gens)
         order = []
         nthreads = rng.randrange(2, 9)
-        sequential = gens and gens[0] and gens[0][-1] == "testtimer 0"
+        sequential = gens and gens[0] and gens[0][-1] in ("testtimer 0", "jitnew")
         while any(i < len(s) for i, s in zip(idx, gens)):
             live = [j for j in range(len(gens)) if idx[j] < len(gens[j])]
             k = live[0] if sequential else rng.choice(live)
@@ -2340,11 +2347,26 @@ def tie_C19(ctx):
         solos = solo[si:si + len(gens)]
         si += len(gens)
         for (k, i, line), v in zip(order, o):
+            if gens[k][i] == "jitnew":
+                continue              # real clock: Ok or Err(reason) may legitimately vary from run to run
             if solos[k][i] != v:
                 ctx.fail("isolation", f"instance {k}: `{gens[k][i][:60]}` returned a different value when other instances were used in the "
                          f"same process (interleaved, on other threads) than when run alone in a fresh process", c,
                          expected=solos[k][i][:80], actual=v[:80])
                 break
+    # constructions that overlap in time: a source that builds a generator of the same type while it delivers the seed
+    # (re-entrancy) and truly concurrent from_rng calls on several OS threads — a static scratch buffer shows here
+    rc = []
+    for g in GENS:
+        for rep in range(ctx.scale(1, 4)):
+            rc.append([f"race {g} {rng.choice([4, 8, 12])} {ctx.scale(400, 4000)} {rng.getrandbits(63):x}"])
+    ro = run_isolated(ctx.hexe, rc)
+    for c, o in zip(rc, ro):
+        ctx.count_case("overlapping constructions (re-entrant source, concurrent threads) vs the same constructions alone", c)
+        ctx.dist["race:" + c[0].split()[1]] += 1
+        if o[0] not in ("ok", "unsupported"):
+            ctx.fail("isolation", f"{c[0].split()[1]}::from_rng gives a different generator when another construction overlaps it: {o[0][:120]}",
+                     c, expected="ok", actual=o[0][:120])
 
 PROPS.update({
     "C17": dict(tie=tie_C17),
